@@ -706,6 +706,10 @@ def check_g(ctx, facts, tier, seed, sm=None):
 
 def run(ctx, sm, facts):
     tier = ctx.tier
+    ctx.rule('C01.h', 'the emitter describes what was built: constructors of the inlinable / structural library blocks keep their own copy of list arguments')
+    from ..leafrules import caller_list_aliasing
+    nal = caller_list_aliasing(ctx, facts, 'C01.h', ['py4hw/logic/bitwise.py', 'py4hw/logic/arithmetic.py', 'py4hw/logic/relational.py', 'py4hw/logic/storage.py', 'py4hw/logic/arithmetic_fxp.py'])
+    ctx.floor('C01.h', 'constructors scanned', nal, 60)
     ctx.rule('C01.a', 'emitter tables resolve; every leaf classified inlined / body / transpiled')
     ctx.rule('C01.b', 'leaf inlinables: propagate() summary == IEEE-1364 reading of the emitted assign, over the configuration grid and all inputs')
     ctx.rule('C01.c', 'structural inlinables: emitted assign == documented function')
